@@ -4,6 +4,7 @@ import (
 	"testing"
 
 	"go.mongodb.org/mongo-driver/bson"
+	"go.mongodb.org/mongo-driver/bson/primitive"
 
 	"verifharness/gen"
 )
@@ -11,7 +12,7 @@ import (
 // Profiles and registrations of the history-based properties that need no
 // reference model: C02, C07, C08, C15, C17.
 
-var collideVals = []interface{}{int32(1), float64(1), int64(1), gen.D128("1"), "1", nil, int32(2), bson.A{int32(1), int32(2)}, bson.A{int32(2), int32(3)}, bson.A{}, bson.D{{Key: "x", Value: int32(1)}}, "x", int32(3)}
+var collideVals = []interface{}{int32(1), float64(1), int64(1), gen.D128("1"), "1", nil, int32(2), bson.A{int32(1), int32(2)}, bson.A{int32(2), int32(3)}, bson.A{}, bson.D{{Key: "x", Value: int32(1)}}, "x", int32(3), bson.A{int32(1), int32(1)}}
 
 func writeWeights(extra map[string]int) map[string]int {
 	w := map[string]int{
@@ -26,13 +27,18 @@ func writeWeights(extra map[string]int) map[string]int {
 	return w
 }
 
-var profFailing = &hProfile{name: "failing", cfg: gen.Core, weights: writeWeights(map[string]int{"updateMany": 12, "insertMany": 9, "bulkWrite": 9, "createIndex": 7}), nss: allNS, docGen: defaultDocGen, idPool: simpleIDs, tinyVals: collideVals}
+var profFailing = &hProfile{name: "failing", cfg: gen.Core, weights: writeWeights(map[string]int{"updateMany": 12, "insertMany": 9, "bulkWrite": 9, "createIndex": 7, "txnAborted": 2}), nss: allNS, docGen: defaultDocGen, idPool: simpleIDs, tinyVals: collideVals, storeFail: 5}
 
 var profCollide = &hProfile{name: "collide", cfg: gen.Core, weights: writeWeights(map[string]int{"createIndex": 9, "updateMany": 10, "replaceOne": 7}), nss: []string{"d1.c1", "d1.c1", "d1.c2"}, docGen: defaultDocGen, idPool: baseIDs, tinyVals: collideVals}
 
-var profIndex = &hProfile{name: "index", cfg: gen.Core, weights: writeWeights(map[string]int{"createIndex": 10, "createIndexes": 3, "dropIndex": 3, "dropIndexKey": 2, "dropIndexes": 2, "updateMany": 9}), nss: []string{"d1.c1", "d1.c1", "d1.c2"}, docGen: defaultDocGen, idPool: simpleIDs, tinyVals: collideVals}
+var profIndex = &hProfile{name: "index", cfg: gen.Core, weights: writeWeights(map[string]int{"createIndex": 10, "createIndexes": 3, "dropIndex": 3, "dropIndexKey": 2, "dropIndexes": 2, "updateMany": 9, "txnAborted": 1}), nss: []string{"d1.c1", "d1.c1", "d1.c2"}, docGen: defaultDocGen, idPool: simpleIDs, tinyVals: collideVals, storeFail: 4}
 
-var profOplog = &hProfile{name: "oplog", cfg: gen.Core, weights: writeWeights(map[string]int{"updateMany": 10, "dropColl": 2, "dropDB": 2, "createIndex": 2}), nss: allNS, docGen: defaultDocGen, idPool: baseIDs, tinyVals: collideVals}
+// the change-log profile also stores dates (one long expired, one far in the
+// future) under TTL indexes and runs expiry passes, abandoned engine
+// transactions and commits whose Store call fails
+var oplogVals = append(append([]interface{}{}, collideVals...), primitive.DateTime(0), primitive.DateTime(0), primitive.DateTime(1000), primitive.DateTime(0), primitive.DateTime(4102444800000), bson.A{primitive.DateTime(0), primitive.DateTime(4102444800000)})
+
+var profOplog = &hProfile{name: "oplog", cfg: gen.Core, weights: writeWeights(map[string]int{"updateMany": 10, "dropColl": 2, "dropDB": 2, "createIndex": 5, "expire": 5, "txnAborted": 2}), nss: allNS, docGen: defaultDocGen, idPool: baseIDs, tinyVals: oplogVals, ttl: true, storeFail: 6, ttlBoost: 40}
 
 var profAlias = &hProfile{name: "alias", cfg: gen.Wide, weights: writeWeights(map[string]int{"find": 8, "findOne": 4, "distinct": 6, "listIndexes": 2, "insertOne": 12}), nss: []string{"d1.c1", "d1.c1", "d1.c2"}, docGen: defaultDocGen, idPool: baseIDs}
 
